@@ -62,7 +62,10 @@ prop("C05",
            "byte for byte with in xor E(c+i) from the specification model, plus re-application restoring the input; "
            "a case is non-trivial if its stream crosses a vector-batch boundary at a ragged cut, or a carry runs "
            "through >= 2 counter bytes, or the counter wraps, or the post-init default / a short / a NULL counter is "
-           "used; distinct = distinct serialised programs among those"),
+           "used; distinct = distinct serialised programs among those. A second harness (unit c05-big) issues single calls of "
+           ">= 65281 blocks (512 KiB and more; in the thorough tier also more than 4 GiB) followed by a continuation call, on every "
+           "back end, and checks sampled blocks (first / last, around every power of two in blocks and bytes, around the call "
+           "boundary, 1500 pseudo-random ones) against E(c + i) computed with the single-block functions"),
      assumptions=MODEL_ASSUME + BUILD_ASSUME,
      technique="property-based testing (rapidcheck): generated CTR call programs vs. specification model, shrinking to a replay file",
      text=("Generated-input search: every generated CTR program must reproduce in xor E(c+i) of an independent "
@@ -262,7 +265,9 @@ prop("C07",
            "block by block under a schedule keyed with the plain set_key (Mantis: block i under tweak i), plus the API model; "
            "the advertised parallel size must be a positive multiple of the block size; the evidence lists how often each block "
            "count 0..40 was generated (the count dimension is covered completely when every 'blocks=n' class is non-zero); "
-           "non-trivial = a count above and not a multiple of the back end's batch"),
+           "non-trivial = a count above and not a multiple of the back end's batch; 1 in 9 requests has 41..200 blocks and the object is "
+           "sometimes re-keyed with a related key; a second harness (unit c07-big) issues single requests of >= 65281 blocks (thorough "
+           "tier: also more than 4 GiB) and checks sampled blocks against the single-block functions"),
      assumptions=BUILD_ASSUME + ["single-block functions are tied to the specification by C01/C02"],
      technique="differential property-based testing (rapidcheck): parallel entry points vs the library's own single-block functions",
      text=("Generated parallel calls for every block count 0..40 on every back end must equal the single-block functions block "
@@ -399,7 +404,8 @@ prop("C09",
            "arena; violation = any invalid read/write report during a call, or an output byte left undefined. Units 2/3 (native, "
            "and ASan with exact heap blocks): guard zones intact, inputs unmodified, same outputs at a second alignment, and "
            "overlapping / in-place == disjoint. Non-trivial = a pointer at an odd offset, a non-zero overlap / in-place, or a size "
-           "leaving a partial vector batch"),
+           "leaving a partial vector batch. Unit c09-far: CTR and parallel calls whose output buffer lies exactly 1 or 2 times 2^32 bytes "
+           "after the input buffer (only the touched pages are mapped), sampled blocks against the single-block functions"),
      assumptions=BUILD_ASSUME + ["memcheck addressability is byte-exact on both sides of every window (positive controls run at start-up)",
                                  "UBSan's alignment check is off: unaligned word access is the documented SKINNY_UNALIGNED assumption on x86"],
      technique="rapidcheck-generated placements under a memcheck NOACCESS arena + metamorphic alignment/overlap relations + ASan",
@@ -512,7 +518,8 @@ prop("C12",
                   "on, the little-endian 64-bit host, which is what the property's quantifier says"],
      technique="differential property-based testing (rapidcheck) across build configurations loaded side by side in one process",
      text=("The same generated call programs are executed by every build configuration in one process and must produce identical "
-           "transcripts. The configuration space is enumerated completely in the thorough tier (128 builds); programs are sampled."),
+           "transcripts - with the baseline of the same back end and with the baseline's generic back end. The configuration space is "
+           "enumerated completely in the thorough tier (160 builds); programs are sampled."),
      note="trusts the H1 override hook to select the compile-time paths the switches name",
      design_ref="DESIGN.md#c12")
 
@@ -600,7 +607,7 @@ prop("C19",
            "only setKey is generated - the documented way to reuse), CTR setIV / encrypt / decrypt with arbitrary cuts; oracle = the C "
            "library object of the corresponding variant driven by the corresponding calls: equal outputs and equal accept/reject "
            "results; non-trivial = a block operation after >= 2 tweak changes, or after a swap following a tweak change, or a CTR "
-           "call whose length is not a multiple of 16"),
+           "call whose length is not a multiple of 16; about 1 in 500 CTR calls processes a little more than 1 MiB (65536 blocks) at once"),
      assumptions=BUILD_ASSUME + ["the portable (#else of USE_AVR_INLINE_ASM) C++ path is compiled unchanged with the host g++; the AVR inline-assembly path is out of reach on the host (stated in the property)",
                   "setCounterSize(n < 16), wrong key lengths and setTweak before setKey are not generated: the C API has no counterpart / the Arduino documentation excludes them"],
      technique="differential stateful property-based testing (rapidcheck): Arduino classes vs the C library on identical call histories",
@@ -650,7 +657,9 @@ prop("C20",
            "tweak length; ECB of whole blocks), length rule, and a second run (-d for tweak/ecb) restores the (truncated) input; "
            "22 % invalid invocations (no -k, key too short / too long for tool and block size, counter/tweak longer than the block, "
            "bad -b, non-hex digits, empty key, unknown option, unreadable input) must exit non-zero and leave no output file; "
-           "non-trivial = invalid invocation, or length > 1024 and not a multiple of the block, or short counter/tweak, or in-between key"),
+           "non-trivial = invalid invocation, or length > 1024 and not a multiple of the block, or short counter/tweak, or in-between key; "
+           "the option groups (-b, -k, -c/-t, -d) appear in a generated order; in the thorough tier about 4 % of the cases feed a sparse "
+           "all-zero input of 2^32 + k bytes and check the output length and sampled blocks"),
      assumptions=BUILD_ASSUME + ["the in-process library computation is tied to the specification by C01, C04, C05, C10",
                   "odd-length hex strings and separator characters are not generated (undocumented either way)"],
      technique="process-level property-based testing (rapidcheck): generated files/keys/options through the built tools vs in-process library + round trip",
